@@ -33,6 +33,9 @@ type Ctx struct {
 	Work    string // scratch directory (outside /repo and /verif), removed by the caller
 	Res     Result
 	started time.Time
+	// Raised counts every Violate call, perClass the calls per class (only the first 3 of a class are recorded)
+	Raised   int
+	perClass map[string]int
 }
 
 type Violation struct {
@@ -75,7 +78,14 @@ func (c *Ctx) Sample(v interface{}) {
 
 // Violate records a violation and writes its replay file; at most 20 are kept per run.
 func (c *Ctx) Violate(prop, class, detail string, replay interface{}) {
-	if len(c.Res.Violations) >= 20 {
+	// at most 3 records per class (a frequent class - e.g. a known finding - must not starve the
+	// others) and 300 in all
+	if c.perClass == nil {
+		c.perClass = map[string]int{}
+	}
+	c.perClass[class]++
+	c.Raised++
+	if c.perClass[class] > 3 || len(c.Res.Violations) >= 300 {
 		return
 	}
 	name := fmt.Sprintf("%s/%s-%s-seed%d-%d.json", c.OutDir, prop, c.Suite, c.Seed, len(c.Res.Violations))
